@@ -1,6 +1,16 @@
 """C07 implementation runner: msdm's belief filter (dictionary and vectorised), predictive observation
 distributions, observation_matrix, the derived BeliefMDP (next_state_dist, reward, is_absorbing) and
-ValueBasedTabularPOMDPPolicy.next_agentstate, on generated POMDPs x beliefs x all (action, observation)."""
+ValueBasedTabularPOMDPPolicy.next_agentstate, on generated POMDPs x beliefs x all (action, observation).
+
+Every choice of representation comes from the case (no randomness here):
+  case["variant"]: labels (int / str / tuple / falsy / unsortable labels, sorted order != id order), int01,
+                   dist_types (see build_pomdp), order (which cached views of the POMDP are touched first)
+  belief entry:    perm (order of the states in the belief dictionary / Belief tuple), sparse,
+                   rep ("dict" | "dist": Deterministic/UniformDistribution when the belief is one),
+                   vec ("ndarray" | "list" | "tuple" | "intarray"), npidx (numpy integer indices),
+                   int01 (whole-number probabilities as Python ints), own_initial (use the Belief object
+                   BeliefMDP.initial_state_dist() itself returns: probabilities are numpy floats)
+All outputs are reported by generator ids, in msdm's state_list / action_list / observation_list order."""
 import os
 import sys
 sys.path.insert(0, os.path.dirname(os.path.abspath(__file__)))
@@ -22,19 +32,44 @@ def guarded(fn):
 def one(case, pl):
     import numpy as np
     from msdm.core.distributions import DictDistribution
+    from msdm.core.distributions.dictdistribution import DeterministicDistribution, UniformDistribution
     from msdm.core.pomdp.tabularpomdp import Belief
     from msdm.core.pomdp.beliefmdp import BeliefMDP
     from msdm.core.pomdp.policy import ValueBasedTabularPOMDPPolicy
 
-    pomdp = build_pomdp(case["pomdp"], explicit_lists=case.get("explicit_lists", False))
+    var = case.get("variant", {})
+    pomdp = build_pomdp(case["pomdp"], explicit_lists=case.get("explicit_lists", False), labels=var.get("labels"),
+                        int01=var.get("int01", False), dist_types=var.get("dist_types", False))
+    S, A, O = pomdp._gen_S, pomdp._gen_A, pomdp._gen_O          # id -> label
+    order = var.get("order", "matrix-first")
+    bmdp = None
+    if order == "belief-first":
+        # derive the belief MDP and use it before any matrix view of the POMDP exists
+        bmdp = BeliefMDP(pomdp)
+        s0 = bmdp.initial_state_dist().sample()
+        bmdp.is_absorbing(s0)
+        for a in bmdp.actions(s0):
+            bmdp.next_state_dist(s0, a)
+    elif order == "dict-first":
+        pomdp.state_estimator(pomdp.initial_state_dist(), pomdp.action_list[0], NEVER)
+    else:
+        pomdp.observation_matrix, pomdp.transition_matrix
     sl, al, ol = list(pomdp.state_list), list(pomdp.action_list), list(pomdp.observation_list)
-    sidx = {s: i for i, s in enumerate(sl)}
+    sid = {l: i for i, l in enumerate(S)}       # label -> generator id
+    aid = {l: i for i, l in enumerate(A)}
+    oid = {l: i for i, l in enumerate(O)}
+    sidx = {s: i for i, s in enumerate(sl)}     # label -> position in msdm's list
     oidx = {o: i for i, o in enumerate(ol)}
     om = pomdp.observation_matrix
-    res = {"state_list": sl, "action_list": al, "observation_list": ol,
+    res = {"state_list": [sid[s] for s in sl], "action_list": [aid[a] for a in al],
+           "observation_list": [oid[o] for o in ol],
            "observation_matrix": [[[fj(x) for x in r] for r in mat] for mat in om],
            "observation_matrix_shape": list(om.shape), "beliefs": []}
-    bmdp = BeliefMDP(pomdp)
+    if bmdp is None:
+        bmdp = BeliefMDP(pomdp)
+    own0 = guarded(lambda: list(bmdp.initial_state_dist().items()))
+    res["belief_initial"] = own0 if isinstance(own0, dict) else \
+        [[[sid[s] for s in b.states], [fj(x) for x in b.probs], fj(p)] for b, p in own0]
 
     class Pol(ValueBasedTabularPOMDPPolicy):
         def action_value(self, b, a):
@@ -44,26 +79,54 @@ def one(case, pl):
     def dict_out(d, idx):
         return sorted([[idx[k], fj(v)] for k, v in d.items()])
 
-    for be in case["beliefs"]:
+    def evaluate(be):
         bq = be["b"]                                   # over state ids 0..n-1
-        if any(fl(bq[s]) != 0 and s not in sidx for s in range(len(bq))):
-            res["beliefs"].append({"error": "HarnessError: belief has mass outside state_list"})
-            continue
-        probs = [fl(bq[s]) for s in sl]
+        if any(fl(bq[i]) != 0 and S[i] not in sidx for i in range(len(bq))):
+            return {"error": "HarnessError: belief has mass outside state_list"}
+
+        def num(p):
+            x = fl(p)
+            return int(x) if be.get("int01") and x == int(x) else x
+        probs = [num(bq[sid[s]]) for s in sl]            # msdm's order
+        perm = [i for i in be.get("perm", list(range(len(bq)))) if S[i] in sidx]   # ids, dictionary / tuple order
+        pairs = [(S[i], num(bq[i])) for i in perm]
         if be.get("sparse"):
-            bdict = DictDistribution({s: p for s, p in zip(sl, probs) if p != 0})
+            pairs = [(s, p) for s, p in pairs if p != 0]
+        pos = [(s, p) for s, p in pairs if p != 0]
+        if be.get("rep") == "dist" and len(pos) == 1:
+            bdict = DeterministicDistribution(pos[0][0])
+        elif be.get("rep") == "dist" and len({p for _, p in pos}) == 1 and len(pos) in (2, 4, 8):
+            bdict = UniformDistribution([s for s, _ in pos])
         else:
-            bdict = DictDistribution({s: p for s, p in zip(sl, probs)})
-        bvec = np.array(probs, dtype=float)
-        btup = Belief(tuple(sl), tuple(probs))
+            bdict = DictDistribution(dict(pairs))
+        vk = be.get("vec", "ndarray")
+        if vk == "list":
+            bvec = list(probs)
+        elif vk == "tuple":
+            bvec = tuple(probs)
+        elif vk == "intarray" and all(float(p) == int(p) for p in probs):
+            bvec = np.array([int(p) for p in probs])
+        else:
+            bvec = np.array(probs, dtype=float)
+        btup = Belief(tuple(s for s, _ in pairs), tuple(p for _, p in pairs))
+        if be.get("own_initial") and not isinstance(own0, dict) and len(own0) == 1 and \
+                [float(x) for x in own0[0][0].probs] == [float(p) for p in probs]:
+            btup = own0[0][0]
+        ix = (lambda i: np.int64(i)) if be.get("npidx") else (lambda i: i)
         out = {"is_absorbing": guarded(lambda: bool(bmdp.is_absorbing(btup))), "actions": []}
         for ai, a in enumerate(al):
             r = {}
             r["est_dict"] = [guarded(lambda o=o: dict_out(pomdp.state_estimator(bdict, a, o), sidx)) for o in ol + [NEVER]]
-            r["est_vec"] = [guarded(lambda oi=oi: [fj(x) for x in pomdp.state_estimator_vec(bvec, ai, oi)]) for oi in range(len(ol))]
-            r["next_agentstate"] = [guarded(lambda o=o: [fj(x) for x in pol.next_agentstate(btup, a, o).probs]) for o in ol + [NEVER]]
+            r["est_vec"] = [guarded(lambda oi=oi: [fj(x) for x in pomdp.state_estimator_vec(bvec, ix(ai), ix(oi))]) for oi in range(len(ol))]
+
+            def nag(o):
+                nb = pol.next_agentstate(btup, a, o)
+                if tuple(nb.states) != tuple(sl):
+                    raise ValueError("next_agentstate over a different state order")
+                return [fj(x) for x in nb.probs]
+            r["next_agentstate"] = [guarded(lambda o=o: nag(o)) for o in ol + [NEVER]]
             r["pred_dict"] = guarded(lambda: dict_out(pomdp.predictive_observation_dist(bdict, a), oidx))
-            r["pred_vec"] = guarded(lambda: [fj(x) for x in pomdp.predictive_observation_vec(bvec, ai)])
+            r["pred_vec"] = guarded(lambda: [fj(x) for x in pomdp.predictive_observation_vec(bvec, ix(ai))])
 
             def bnext():
                 d = bmdp.next_state_dist(btup, a)
@@ -75,9 +138,15 @@ def one(case, pl):
                 return o
             r["belief_next"] = guarded(bnext)
             r["belief_reward"] = guarded(lambda: fj(bmdp.reward(btup, a, None)))
-            r["belief_actions"] = guarded(lambda: list(bmdp.actions(btup)))
+            r["belief_actions"] = guarded(lambda: [aid[x] for x in bmdp.actions(btup)])
             out["actions"].append(r)
-        res["beliefs"].append(out)
+        return out
+
+    for be in case["beliefs"]:
+        res["beliefs"].append(evaluate(be))
+    # object reuse: after everything else ran on the same objects, the first beliefs give the same answers
+    k = min(2, len(case["beliefs"]))
+    res["repeat_equal"] = [evaluate(be) == prev for be, prev in zip(case["beliefs"][:k], res["beliefs"][:k])]
     return res
 
 
